@@ -29,6 +29,7 @@ func TestStopDuringPeriodicPass(t *testing.T) {
 				}
 				yields := []int{0, 1, 3, 10, 30, 100, 400}
 				for round := 0; round < vk.Pick(7, 70); round++ {
+					vk.Progress() // one bubble runs all the rounds: tell the watchdog that the case is advancing (a loaded machine needs > 30 s for 70 rounds)
 					c := ttlcache.NewCache[int](ttlcache.CacheOptions{CleanupInterval: time.Second, InitialSize: int32(entries)})
 					for k := 0; k < entries; k++ {
 						c.Set(fmt.Sprint(k), k, 1)
